@@ -1252,6 +1252,26 @@ func runC15(cfg config) *hx.Report {
 			Data: [][]byte{c15Frame(key, 0, 3, 0, nil)}})
 		// "SBC1 ff ff ff ff": used to allocate 4 GiB before any JSON byte arrived
 		add(c15Case{Kind: "recv-fuzz", Tag: "corpus:header-json-max", Items: it, Header: []byte("SBC1\xff\xff\xff\xff"), Mem: true})
+		// a well-formed header whose summary numbers lie: counts, totals and sizes the peer
+		// merely CLAIMS must not size anything (the stream ends right after the header)
+		for _, lie := range []func(m *manifest.Manifest){
+			func(m *manifest.Manifest) { m.FileCount = 2_000_000 },
+			func(m *manifest.Manifest) { m.FileCount = 1 << 40 },
+			func(m *manifest.Manifest) { m.FolderCount = 3_000_000 },
+			func(m *manifest.Manifest) { m.TotalBytes = 1 << 55 },
+			func(m *manifest.Manifest) { m.FileCount, m.Items = 5_000_000, nil },
+			func(m *manifest.Manifest) { m.Items[0].Size = 1 << 60 },
+			func(m *manifest.Manifest) { m.FileCount = -7 },
+		} {
+			m := c15Manifest(it)
+			lie(&m)
+			hdr, err := transfer.VerifWriteControlHeader(m)
+			if err != nil {
+				continue
+			}
+			add(c15Case{Kind: "recv-fuzz", Tag: "header-summary-lies", Items: it, Header: append([]byte{}, hdr...), Mem: true})
+			add(c15Case{Kind: "recv-fuzz", Tag: "header-summary-lies", Items: it, Header: append([]byte{}, hdr...), Mem: true, Ctl: append([]byte{}, ds...)})
+		}
 		// ResumeRequest for a key that was never announced: used to park the main loop forever
 		add(c15Case{Kind: "recv-fuzz", Tag: "corpus:resume-request-unknown", Items: it, Header: c15Header(it),
 			Ctl: append(append([]byte{}, ds...), c15Enc(transfer.ResumeRequest{FileID: "x", StreamID: 4242})...)})
